@@ -20,7 +20,9 @@ import (
 	"time"
 
 	apb "github.com/google/fhir/go/proto/google/fhir/proto/annotations_go_proto"
+	cpb "github.com/google/fhir/go/proto/google/fhir/proto/r4/core/codes_go_proto"
 	dtpb "github.com/google/fhir/go/proto/google/fhir/proto/r4/core/datatypes_go_proto"
+	bcrpb "github.com/google/fhir/go/proto/google/fhir/proto/r4/core/resources/bundle_and_contained_resource_go_proto"
 	"github.com/verily-src/fhirpath-go/fhirpath/patch"
 	"github.com/verily-src/fhirpath-go/internal/fhir"
 	"google.golang.org/protobuf/proto"
@@ -1212,6 +1214,139 @@ func c18RunInv(ctx *Ctx, c c18InvCase) {
 
 var _ = reflect.TypeOf
 
+// --- histories over several resources ------------------------------------------------------
+
+// A patch call names one resource.  Here a Bundle, a free-standing resource P and (once P has
+// been placed into an entry) the Bundle *containing* P are patched in turn, with ordinary
+// paths, with root-only paths (just the type name) and with paths that select nothing.  After
+// every call: an error leaves every resource of the history as it was; a call that did not
+// change the resource it names did not change any other either; and a resource that neither
+// contains the named one nor is contained in it is never changed.
+type c18XStep struct {
+	On    string `json:"on"`   // bundle | p | entry
+	Op    string `json:"op"`   // replace-entry-resource delete-entry root-delete root-replace leaf-delete leaf-replace absent-delete add-entry-link
+	Index int    `json:"index"`
+}
+
+type c18XCase struct {
+	P       string     `json:"p"`
+	Entries []string   `json:"entries"`
+	Steps   []c18XStep `json:"steps"`
+}
+
+func c18GenX(s Src) c18XCase {
+	c := c18XCase{P: resToText(genResource(s, pickOne(s, []string{"Patient", "Patient", "Observation", "Organization"}), smallGen))}
+	for i := 0; i < s.Range(1, 3); i++ {
+		c.Entries = append(c.Entries, resToText(genAnyResource(s, smallGen)))
+	}
+	for i := 0; i < s.Range(2, 6); i++ {
+		c.Steps = append(c.Steps, c18XStep{On: pickOne(s, []string{"bundle", "p", "p", "entry"}), Op: pickOne(s, []string{"replace-entry-resource", "replace-entry-resource", "delete-entry", "root-delete", "root-delete", "root-replace", "leaf-delete", "leaf-replace", "absent-delete"}), Index: s.Intn(3)})
+	}
+	return c
+}
+
+func c18RunX(ctx *Ctx, c c18XCase) {
+	pm, err := resFromText(c.P)
+	if err != nil {
+		ctx.Fail("harness: cannot decode case", err.Error())
+		return
+	}
+	p := pm.(fhir.Resource)
+	b := &bcrpb.Bundle{Type: &bcrpb.Bundle_TypeCode{Value: cpb.BundleTypeCode_COLLECTION}}
+	var entryRes []fhir.Resource
+	for _, t := range c.Entries {
+		m, err := resFromText(t)
+		if err != nil {
+			ctx.Fail("harness: cannot decode case", err.Error())
+			return
+		}
+		r := m.(fhir.Resource)
+		entryRes = append(entryRes, r)
+		b.Entry = append(b.Entry, &bcrpb.Bundle_Entry{Resource: wrapCR(r)})
+	}
+	all := append([]fhir.Resource{b, p}, entryRes...)
+	ser := func(r fhir.Resource) string {
+		out, _ := proto.MarshalOptions{Deterministic: true}.Marshal(r)
+		return string(out)
+	}
+	contains := func(outer, inner fhir.Resource) bool {
+		set := map[any]bool{}
+		ownNodes(outer.ProtoReflect(), set, 0)
+		return set[any(inner)]
+	}
+	rootOnly := false
+	var history []string
+	for _, st := range c.Steps {
+		var on fhir.Resource
+		switch st.On {
+		case "bundle":
+			on = b
+		case "p":
+			on = p
+		default:
+			on = entryRes[st.Index%len(entryRes)]
+		}
+		typ := string(on.ProtoReflect().Descriptor().Name())
+		op := c18Op{Op: "delete"}
+		path := typ
+		var value fhir.Base
+		switch st.Op {
+		case "replace-entry-resource":
+			if len(b.Entry) == 0 {
+				continue
+			}
+			on, typ = b, "Bundle"
+			path, op.Op, value = fmt.Sprintf("Bundle.entry[%d].resource", st.Index%len(b.Entry)), "replace", p
+		case "delete-entry":
+			on, typ = b, "Bundle"
+			path = fmt.Sprintf("Bundle.entry[%d]", st.Index)
+		case "root-delete":
+			rootOnly = true
+		case "root-replace":
+			rootOnly = true
+			op.Op, value = "replace", proto.Clone(on).(fhir.Base)
+		case "leaf-delete":
+			path = typ + ".id"
+		case "leaf-replace":
+			path, op.Op, value = typ+".id", "replace", &dtpb.Id{Value: "x" + fmt.Sprint(st.Index)}
+		case "absent-delete":
+			path = typ + ".implicitRules"
+		}
+		before := make([]string, len(all))
+		for i, r := range all {
+			before[i] = ser(r)
+		}
+		perr, pan := c18Exec(on, path, op, value)
+		history = append(history, fmt.Sprintf("%s(%s[%s], %q) → %v", op.Op, st.On, typ, path, perr))
+		if pan.Panic != "" {
+			ctx.Fail("patch "+op.Op+": panic@"+pan.Panic, strings.Join(history, "\n"))
+			return
+		}
+		onChanged := false
+		for i, r := range all {
+			if r == on && ser(r) != before[i] {
+				onChanged = true
+			}
+		}
+		for i, r := range all {
+			changed := ser(r) != before[i]
+			switch {
+			case !changed:
+			case perr != nil:
+				ctx.Fail("patch "+op.Op+": returned an error but changed a resource of the history", strings.Join(history, "\n"))
+				return
+			case r != on && !onChanged:
+				ctx.Fail("patch "+op.Op+": the call left the resource it names unchanged but changed another resource", strings.Join(history, "\n")+fmt.Sprintf("\nchanged: resource %d (%T)", i, r))
+				return
+			case r != on && !contains(r, on) && !contains(on, r):
+				ctx.Fail("patch "+op.Op+": the call changed a resource that neither contains the named one nor is contained in it", strings.Join(history, "\n")+fmt.Sprintf("\nchanged: resource %d (%T)", i, r))
+				return
+			}
+		}
+	}
+	ctx.Eval(fmt.Sprint(c.Steps)+c.P, rootOnly && len(c.Steps) >= 2, "stage:cross-resource-histories")
+}
+
 func TestC18(t *testing.T) {
 	r := newRec("C18",
 		"a history case is one resource (the fixture Patient or a generated resource of any R4 type) and 1..5 operations; each operation targets a node of the current JSON tree (un-indexed, fully or partly indexed) optionally filtered by criteria computed from an empty sub-collection (where(id.empty()), where(id.exists().not()), where(id.count() = 0), where(extension.count() < 1)), for inserts optionally with the last step computed inside select() on the parent (the whole list, take(2), first(), tail(): judged by the frame rule that an insert removes no leaf of the JSON tree), or by first()/last()/tail()/where(true|false)/[0]/extension(url)/where(id.exists()) or by a criterion that depends on the evaluate options every operation receives (where(now() = <the pinned instant>), where(%keep)), with op ∈ {add, insert, delete, replace, move}, an element name (valid, unknown, snake_case), an index in [-1,4] and a value that is a fresh element of the target's type, a sibling type (Code for an enum code, Integer for unsigned, …), a wrong type, a clone of the target or nil; method and package-level entry points.  Oracle after every step: error ⇒ resource and value bit-identical (deterministic serialisation, presence bits, proto.Equal); nil ⇒ the resource equals M-PATCH applied to a clone (independent protoreflect implementation on the target located by tree semantics; proto.Equal and google/fhir JSON), or, where the model does not predict the success, nothing changes when the path selects nothing; Move ⇒ ErrNotImplemented and unchanged.  Inverse-pair cases: add→delete, insert→delete, replace→replace-back restore the resource.  Populated-scalar cases: a densely populated resource of a drawn type and up to 12 add operations that each name an already populated scalar element: all must be refused.  Code cases: one add/replace of a plain Code on an enum-backed code element with a valid code or an invalid spelling of one (foreign, `_`/space/`.` for `-`, upper case, proto enum name, camelCase, padded): a code outside the value set must be refused (the tree would gain a text the element cannot hold).  non-trivial = an operation succeeded and changed the tree, or failed on a path selecting ≥ 1 node (histories); both steps succeeded (inverse pairs); distinct = FNV-64 of the case",
@@ -1221,6 +1356,7 @@ func TestC18(t *testing.T) {
 		Stage[c18InvCase]{Name: "inverse-pairs", Gen: c18GenInv, Run: c18RunInv, N: pick(1500, 12000)},
 		Stage[c18Case]{Name: "codes", Gen: c18GenCodes, Run: c18Run, N: pick(1500, 15000)},
 		Stage[c18Case]{Name: "populated-scalars", Gen: c18GenPopulated, Run: c18Run, N: pick(500, 8000)},
+		Stage[c18XCase]{Name: "cross-resource-histories", Gen: c18GenX, Run: c18RunX, N: pick(1500, 20000)},
 	)
 }
 
